@@ -273,23 +273,25 @@ def eachSpec {α} (w : World α) (id : Nat) (k : Bool) : List α → Log α → 
 /-- a function without open slots (not a projection): run it -/
 def applyBase {α} (w : World α) (c : Ctx α) (e : Entry α) (args : List α) (log : Log α) : Out α × Log α :=
   match e with
-  | .data v => (.val v, log)                     -- `n::7; n(1;2)` is 7
+  | .data _ => (.err .unsupported, log)          -- "calling" a data value is not an application: not modelled
   | .pyfn id sig => applyPy w c id sig args log
   | .kfn ar body => if args.length < ar then (.unapplied, log) else (.kres body (args.take ar), log)
   | .proj _ _ => (.err .unsupported, log)        -- projection of a projection: C03, not modelled here
 
 def countOpen {α} (slots : List (Option α)) : Nat := (slots.filter Option.isNone).length
 
-/-- `_eval_fn` of a call whose function is `e` -/
+/-- `_eval_fn` of a call whose function is `e`: a projection first resolves its base name
+    (`_resolve_fn` raises "undefined" for an unbound one), then merges the arguments into the
+    open slots -/
 def applyEntry {α} (w : World α) (c : Ctx α) (e : Entry α) (args : List α) (log : Log α) : Out α × Log α :=
   match e with
   | .proj base slots =>
-    match allSome (fill slots args) with
-    | none => (.unapplied, log)
-    | some full =>
-      match lookupCtx c base with
-      | none => (.err .undefined, log)
-      | some b => applyBase w c b full log
+    match lookupCtx c base with
+    | none => (.err .undefined, log)
+    | some b =>
+      match allSome (fill slots args) with
+      | none => (.unapplied, log)
+      | some full => applyBase w c b full log
   | e => applyBase w c e args log
 
 /-- `klong('name(a;b;c)')` with the arguments already evaluated -/
